@@ -191,6 +191,36 @@ fn main() {
             let code = driver::run_check(&driver::CheckArgs { prop, thorough, seed, workers, runs, budget });
             std::process::exit(code);
         }
+        Some("minimise") => {
+            // sim minimise <in.json> <out.json> <budget_s>
+            let inp = args.get(2).cloned().unwrap_or_default();
+            let outp = args.get(3).cloned().unwrap_or_default();
+            let budget: u64 = args.get(4).and_then(|x| x.parse().ok()).unwrap_or(20);
+            let txt = std::fs::read_to_string(&inp).unwrap_or_default();
+            match json::parse(&txt).ok().and_then(|j| minimise::parse_failure(&j).ok()) {
+                Some(f) => {
+                    let m = minimise::minimise(&f, std::time::Duration::from_secs(budget), 200);
+                    let _ = std::fs::write(&outp, m.pretty());
+                }
+                None => std::process::exit(2),
+            }
+        }
+        Some("run-scenario") => {
+            // sim run-scenario <replay.json>: run the stored scenario once with its scheduler
+            // configuration (no recorded schedule); used to re-check a hang
+            let p = args.get(2).cloned().unwrap_or_default();
+            let txt = std::fs::read_to_string(&p).unwrap_or_default();
+            let j = json::parse(&txt).unwrap_or(json::J::Null);
+            let scn = j.get("scenario").and_then(|s| Scenario::from_json(s).ok());
+            let cfg = j.get("sched").and_then(|s| scenario::sched_from(s).ok());
+            match (scn, cfg) {
+                (Some(s), Some(c)) => {
+                    let o = minimise::run_single(&s, &c);
+                    println!("end={}", o.end.name());
+                }
+                _ => std::process::exit(2),
+            }
+        }
         Some("replay") => {
             let p = args.get(2).cloned().unwrap_or_default();
             std::process::exit(driver::run_replay(&p));
